@@ -112,7 +112,7 @@ var (
 	curHit   int32
 )
 
-const watchdogLimit = 20 * time.Second
+const watchdogLimit = 120 * time.Second
 
 func startWatchdog() {
 	go func() {
@@ -144,9 +144,21 @@ func sum(xs []uint64) (s uint64) {
 	return
 }
 
+// run modes
+const (
+	modeObserved = iota // fresh EVM, probing StateDB + tracer
+	modeReused          // plain production path on the worker's long-lived EVM after Reset()+SetToken(), the way
+	// app/state_transition.go re-uses the block's EVM for every transaction
+	modeFresh // plain production path on a fresh EVM
+)
+
+// reusedVM is the worker's long-lived plain EVM (one per block in production).
+var reusedVM *evm.EVM
+
 // run executes code under config c on a fresh StateDB of world w. instrumented selects the observed run
 // (probe StateDB + tracer) or the plain production path.
-func run(w *world, ref *state.StateDB, preRoot common.Hash, code []byte, c config, instrumented bool) *result {
+func run(w *world, ref *state.StateDB, preRoot common.Hash, code []byte, c config, mode int) *result {
+	instrumented := mode == modeObserved
 	r := &result{preRoot: preRoot}
 	var st *state.StateDB
 	if c.entry == entCreate {
@@ -162,7 +174,22 @@ func run(w *world, ref *state.StateDB, preRoot common.Hash, code []byte, c confi
 		p = newProbe(st, ref, stepBudget(c.gas))
 		sdb, tr = p, p
 	}
-	vm := newEVM(sdb, c, tr)
+	var vm *evm.EVM
+	if mode == modeReused {
+		if reusedVM == nil {
+			reusedVM = newEVM(sdb, config{entry: entCall}, nil)
+		}
+		vm = reusedVM
+		vm.StateDB = sdb
+		token := common.EmptyAddress
+		if c.entry == entTokenCall {
+			token = aTkn
+		}
+		vm.Reset(types.NewMessage(aOrigin, nil, token, st.GetNonce(aOrigin), nil, 0, big.NewInt(1), nil))
+		vm.SetToken(token)
+	} else {
+		vm = newEVM(sdb, c, tr)
+	}
 	if p != nil {
 		p.vm = vm
 	}
@@ -334,7 +361,8 @@ func evaluate(w *world, ref *state.StateDB, preRoot common.Hash, code []byte, c 
 		}
 		fs = append(fs, finding{key, fmt.Sprintf(format, a...)})
 	}
-	a := run(w, ref, preRoot, code, c, true)
+	nruns := 2
+	a := run(w, ref, preRoot, code, c, modeObserved)
 	if a.panicked {
 		at := a.faultOp
 		if at == "" {
@@ -355,7 +383,7 @@ func evaluate(w *world, ref *state.StateDB, preRoot common.Hash, code []byte, c 
 		add("no-termination-within-watchdog", "did not return within %v for gas=%d", watchdogLimit, c.gas)
 		return fs, "timeout", a, 1
 	}
-	b := run(w, ref, preRoot, code, c, false)
+	b := run(w, ref, preRoot, code, c, modeReused)
 	if b.panicked {
 		add("panic:"+panicClass(b.panicVal)+":"+opClass(code), "interpreter panicked (plain run only): %s", b.panicVal)
 		return fs, "panic", a, 2
@@ -368,29 +396,15 @@ func evaluate(w *world, ref *state.StateDB, preRoot common.Hash, code []byte, c 
 		add(v[0], "%s", v[1])
 	}
 
-	// determinism: two runs from equal pre-states
-	switch {
-	case !bytes.Equal(a.ret, b.ret):
-		add("nondeterministic:return-data", "two runs returned %x and %x", a.ret, b.ret)
-	case a.left != b.left || a.bcg != b.bcg:
-		add("nondeterministic:gas", "two runs left gas %d/%d (bytecode gas %d/%d)", a.left, b.left, a.bcg, b.bcg)
-	case a.err != b.err:
-		add("nondeterministic:error", "two runs ended with %q and %q", a.err, b.err)
-	case a.created != b.created:
-		add("nondeterministic:created-address", "two runs created %x and %x", a.created, b.created)
-	case a.refundFee != b.refundFee || a.refundAll != b.refundAll:
-		add("nondeterministic:fee-refund", "two runs refund fees %d/%d and %d/%d", a.refundFee, a.refundAll, b.refundFee, b.refundAll)
-	case a.otxs != b.otxs:
-		add("nondeterministic:balance-records", "two runs produced balance records %q and %q", a.otxs, b.otxs)
-	case a.root != b.root:
-		cl, det := a.post.diff(b.post)
-		if len(cl) == 0 {
-			cl = []string{"root-only"}
-		}
-		add("nondeterministic:state:"+strings.Join(cl, "+"), "two runs ended in different states (roots %x / %x): %s", a.root[:4], b.root[:4], det)
-	default:
-		if cl, det := a.post.diff(b.post); len(cl) > 0 {
-			add("nondeterministic:state:"+strings.Join(cl, "+"), "two runs ended in different states with EQUAL roots: %s", det)
+	// determinism: two runs from equal pre-states. The second run re-uses a long-lived EVM the way the application
+	// does; if they differ, a third run on a fresh plain EVM tells whether the re-use is what matters.
+	if k, wh := compareRuns(a, b); k != "" {
+		c3 := run(w, ref, preRoot, code, c, modeFresh)
+		nruns++
+		if k3, _ := compareRuns(a, c3); k3 == "" && !c3.panicked && !c3.canceled {
+			add("nondeterministic:evm-reuse:"+k, "a fresh EVM and an EVM re-used after Reset() give different results: %s", wh)
+		} else {
+			add("nondeterministic:"+k, "%s", wh)
 		}
 	}
 	// A memoised StateDB database error (EXTCODESIZE of a code-less account looks the empty code hash up in the
@@ -444,7 +458,35 @@ func evaluate(w *world, ref *state.StateDB, preRoot common.Hash, code []byte, c 
 	} else if a.root != a.preRoot {
 		cls = "ok+state-change"
 	}
-	return fs, cls, a, 2
+	return fs, cls, a, nruns
+}
+
+// compareRuns returns the first observable in which two runs differ ("" if none).
+func compareRuns(a, b *result) (key, what string) {
+	switch {
+	case !bytes.Equal(a.ret, b.ret):
+		return "return-data", fmt.Sprintf("two runs returned %x and %x", a.ret, b.ret)
+	case a.left != b.left || a.bcg != b.bcg:
+		return "gas", fmt.Sprintf("two runs left gas %d/%d (bytecode gas %d/%d)", a.left, b.left, a.bcg, b.bcg)
+	case a.err != b.err:
+		return "error", fmt.Sprintf("two runs ended with %q and %q", a.err, b.err)
+	case a.created != b.created:
+		return "created-address", fmt.Sprintf("two runs created %x and %x", a.created, b.created)
+	case a.refundFee != b.refundFee || a.refundAll != b.refundAll:
+		return "fee-refund", fmt.Sprintf("two runs refund fees %d/%d and %d/%d", a.refundFee, a.refundAll, b.refundFee, b.refundAll)
+	case a.otxs != b.otxs:
+		return "balance-records", fmt.Sprintf("two runs produced balance records %q and %q", a.otxs, b.otxs)
+	case a.root != b.root:
+		cl, det := a.post.diff(b.post)
+		if len(cl) == 0 {
+			cl = []string{"root-only"}
+		}
+		return "state:" + strings.Join(cl, "+"), fmt.Sprintf("two runs ended in different states (roots %x / %x): %s", a.root[:4], b.root[:4], det)
+	}
+	if cl, det := a.post.diff(b.post); len(cl) > 0 {
+		return "state:" + strings.Join(cl, "+"), fmt.Sprintf("two runs ended in different states with EQUAL roots: %s", det)
+	}
+	return "", ""
 }
 
 func sortStrings(l []string) {
